@@ -9,9 +9,9 @@ Cases == ndJsonDeserialize(IOEnv.TRACE_FILE)
 VARIABLES ci, bad
 vars == <<ci, bad>>
 Near(o, x, tol) == o[1] = 0 /\ AbsI(o[2] - x) <= tol
-PAMB0 == 1013250                                   \* ubar at height 0 (all designed gas scenarios are flat)
-Gauge(s, k) == s.nodes[k].P * 10000 - PAMB0         \* centibar -> ubar, minus ambient
-S(c) == [c.s EXCEPT !.hm = [i \in {1, 2, 3} |-> c.s.hm[ToString(i)]]]
+(* ambient pressure at the three height levels: oracle table of the barometric formula (harness, 1e-6 bar) *)
+Gauge(s, k) == s.nodes[k].P * 10000 - s.pamb[s.nodes[k].h]         \* centibar -> ubar, minus ambient
+S(c) == [c.s EXCEPT !.hm = [i \in {1, 2, 3} |-> c.s.hm[ToString(i)]], !.pamb = [i \in {1, 2, 3} |-> c.s.pamb[ToString(i)]]]
 (* v = m / (rho_N A) * normfactor = 100 m * 1.01325 / (1.01325 * p_abs) ... = 100 m / p_abs[bar] ; in 1e-6 m/s with P in centibar *)
 NormF(P) == (1013250000 \div P) * 100                   \* 1.01325 / (P/100) * 1e9 = 1.01325e11 / P (32-bit safe, +-100)
 
@@ -21,7 +21,7 @@ BranchClauses(sc, o, k) ==
         mm == IF n.rev THEN -m ELSE m
     IN (IF ~Near(o.pf, Gauge(sc, x), 3) \/ ~Near(o.pt, Gauge(sc, y), 3) THEN {<<"GAS.end_pressure", n.kind, ToString(k)>>} ELSE {})
        \cup (IF ~Near(o.mf, mm * 1000000, 3) THEN {<<"GAS.mass_flow", n.kind, ToString(k)>>} ELSE {})
-       \cup (IF ~Near(o.nf, NormF(sc.nodes[x].P), 200) \/ ~Near(o.nt, NormF(sc.nodes[y].P), 200) THEN {<<"GAS.normfactor", n.kind, ToString(k)>>} ELSE {})
+       \cup (IF ~Near(o.nf, NormF(sc.nodes[x].P), 200 + NormF(sc.nodes[x].P) \div 500000) \/ ~Near(o.nt, NormF(sc.nodes[y].P), 200 + NormF(sc.nodes[y].P) \div 500000) THEN {<<"GAS.normfactor", n.kind, ToString(k)>>} ELSE {})
        \cup (IF ~Near(o.vf, 100 * ((mm * 100000000) \div sc.nodes[x].P), 200) \/ ~Near(o.vt, 100 * ((mm * 100000000) \div sc.nodes[y].P), 200)
              THEN {<<"GAS.velocity", n.kind, ToString(k)>>} ELSE {})
 CaseClauses(c) ==
